@@ -214,6 +214,42 @@ def neutralise_cont(text):
     return ''.join(out) if i == len(text) else None
 
 
+def drop_final_cont(text):
+    """The text with its last line continuation replaced by a space if only blanks and newlines follow that continuation
+    (the statement is continued onto an empty rest of the file); None otherwise."""
+    last = None
+    i = 0
+    for m in reflang._TOK.finditer(text):
+        if m.start() != i:
+            return None
+        i = m.end()
+        if m.lastgroup == 'cont':
+            last = m
+        elif m.lastgroup not in ('ws', 'nl'):
+            last = None
+    if last is None or i != len(text):
+        return None
+    return text[:last.start()] + ' ' + text[last.end():]
+
+
+def single_quote_triples(text):
+    """Every triple-quoted literal that holds no newline, quote or backslash written with single quotes (the documented
+    simplification done by hand); None if there is none."""
+    out = []
+    i = 0
+    hit = False
+    for m in reflang._TOK.finditer(text):
+        if m.start() != i:
+            return None
+        t = m.group()
+        if m.lastgroup in ('mstr', 'mfstr') and not any(c in t[:-3].split("'''", 1)[1] for c in "\n'\\"):
+            t = t.replace("'''", "'")
+            hit = True
+        out.append(t)
+        i = m.end()
+    return ''.join(out) if hit and i == len(text) else None
+
+
 def raw_violations(src, cfg, ref=True):
     """All oracle clauses on one (src, cfg).  Returns (status, list of (kind, detail), out, info)."""
     sort_files = bool(cfg.get('sort_files', False))
@@ -440,10 +476,20 @@ def missing_operand(src):
 def idem_causes(src, cfg, out=''):
     """Known mechanisms behind a missing fixed point: (key suffix, description, neutraliser (src, cfg) -> (src, cfg))."""
     causes = []
+    if drop_final_cont(src) is not None:
+        causes.append(('continuation-before-end-of-file',
+                       'a statement continued (backslash-newline) onto an empty rest of the file gains one more blank line with '
+                       'every format run',
+                       lambda s, c: (drop_final_cont(s), c)))
     if has_cont_in_brackets(src):
         causes.append(('continuation-in-brackets',
                        'a backslash line continuation inside brackets needs more than one format run to reach a fixed point',
                        lambda s, c: (neutralise_cont(s), c)))
+    if cfg.get('no_single_comma_function') and cfg.get('simplify_string_literals', True) and single_quote_triples(src) is not None:
+        causes.append(('no-single-comma-function:triple-quoted-argument',
+                       "no_single_comma_function: a call whose only argument is a '''..''' literal is laid out multi-line because of "
+                       "the triple quotes, the literal is simplified to '..' in the same run, and the next run joins the call",
+                       lambda s, c: (single_quote_triples(s), c)))
     if cfg.get('no_single_comma_function') and not multiline_container_without_comma(out):
         causes.append(('no-single-comma-function',
                        'no_single_comma_function: the run that removes the comma of a single-argument call keeps it multi-line, '
@@ -486,6 +532,12 @@ def classify(kind, detail, src, cfg, out, ref=True):
             sub = 'added'
         else:
             sub = 'changed'
+        # a character that str.splitlines() takes for a line boundary vanishes from the comment
+        if sub == 'changed' and ca != cb and any(ch in c for c in ca for ch in LINE_BOUNDARY_CHARS) and \
+                [c.translate(_NO_LB) for c in ca] == [c.translate(_NO_LB) for c in cb]:
+            return ('C16:comments:changed:line-boundary-char',
+                    'a comment holding VT, FF, FS, GS, RS, NEL, LS or PS (what str.splitlines() splits at) loses that character and the blanks around it: '
+                    '%r -> %r' % ([c for c in ca if c not in cb][:1], [c for c in cb if c not in ca][:1]))
         # suspect 16: the comment hangs off the brackets of the array that files([...]) flattening removes
         if sub == 'lost' and has_files(src) and not still('comments', rename_files(src), cfg, ref):
             return ('C16:comments:lost:files-flatten',
@@ -546,20 +598,25 @@ def outcome_class(src, out):
     return ('lines+' if b > a else 'lines-' if b < a else 'lines=', commas, f, g)
 
 
-def judge(src, cfg, ref=True):
-    """-> (status, [(key, what)], outcome_class)"""
+def judge_out(src, cfg, ref=True):
+    """-> (status, [(key, what)], outcome_class, formatted text or None)"""
     st, viols, out, info = raw_violations(src, cfg, ref)
     if st == 'ref_rejects' and ref:
-        return st, [], None
+        return st, [], None, None
     if st != 'viol':
         cls = outcome_class(src, out) if st == 'ok' else None
         if cls and info.get('comment_order_unspecified'):
             cls = cls + ('comment-order-unspecified',)
-        return st, [], cls
+        return st, [], cls, out
     res = []
     for kind, detail in viols:
         res.append(classify(kind, detail, src, cfg, out, ref))
-    return 'viol', res, None
+    return 'viol', res, None, out
+
+
+def judge(src, cfg, ref=True):
+    """-> (status, [(key, what)], outcome_class)"""
+    return judge_out(src, cfg, ref)[:3]
 
 
 # ============================================================================================================
@@ -865,7 +922,7 @@ def choices(kind, ww, i, full, indent_):
     elif kind == 'eol':
         ch = ['', ' ' + c, ' ']
         if full:
-            ch += ['  ' + c, c, '\t' + c + ' ']
+            ch += ['  ' + c, c, '\t' + c + ' ', ' \\\n']      # (the last: the statement is continued onto an empty line)
     elif kind == 'bol':
         ch = [indent_, indent_ + c + '\n' + indent_, '\n' + indent_, indent_ + '  ']
         if full:
@@ -906,6 +963,8 @@ def variants(toks, dev, full, ill=False):
             for pos in itertools.combinations(range(n - 1), dev - 1):
                 for pick in itertools.product(*[opts[p] for p in pos]):
                     yield render(short, dict(zip(pos, pick)), '')
+                    if full:        # ... and the unterminated last line may be the empty continuation of the statement
+                        yield render(short, dict(zip(pos, pick)), ' \\\n')
     else:
         tops = [i for i, (k, ww) in enumerate(kinds) if k == 'top']
         for t in tops:
@@ -1035,6 +1094,135 @@ def gen_strings(maxlen):
                 for f in ('', 'f'):
                     yield 'x = %s%s%s%s%s%s\n' % (f, q, pre, esc, post, q)
                     yield 'y = g(%s%s%s%s%s%s, k: 1)  #c\n' % (f, q, pre, esc, post, q)
+
+
+# ---- spellings: the characters a literal simplification depends on, in every way Syntax.md lets one write them -------
+# Whether '''..''' may become '..' depends on the body holding a newline, a quote or a backslash; whether f'..' may become
+# '..' depends on an @id@ placeholder: all of it in the string the literal DENOTES (Syntax.md: escapes are decoded in
+# '...' and f'...', '''...''' is raw; the f-string substitution works on the denoted string).  So each of @ ' \ newline is
+# an atom of the body alphabet in each of its spellings: itself, its one-letter escape, \ooo, \xhh, \uxxxx, \Uxxxxxxxx and
+# \N{name}; the only other atom is the identifier character a (so that @a@ exists).  Bodies are all atom sequences up to a
+# length, in the four quoting forms.  The reference parser is told the four \N names used (nothing else of the database).
+SIGNIFICANT = [('@', 'at', 'COMMERCIAL AT', '\\@'), ("'", 'quote', 'APOSTROPHE', "\\'"),
+               ('\\', 'backslash', 'REVERSE SOLIDUS', '\\\\'), ('\n', 'newline', 'LINE FEED', '\\n')]
+reflang.NAMED_ESCAPES.update({name: c for c, _, name, _ in SIGNIFICANT})
+SPELLINGS = ['lit', 'simple', 'oct', 'hex', 'u', 'U', 'N']
+
+
+def spell_atoms(extra=()):
+    """[(text, char name or None, spelling)]"""
+    atoms = [('a', None, 'lit')] + [(x, None, 'lit') for x in extra]
+    for c, cname, uname, simple in SIGNIFICANT:
+        o = ord(c)
+        for sp, text in zip(SPELLINGS, [c, simple, '\\%03o' % o, '\\x%02x' % o, '\\u%04x' % o, '\\U%08x' % o, '\\N{%s}' % uname]):
+            atoms.append((text, cname, sp))
+    return atoms
+
+
+SPELL_ATOMS = []            # set by main (tier dependent), inherited by the workers
+SPELL_KINDS = [("'", ''), ("'''", ''), ("'", 'f'), ("'''", 'f')]
+SPELL_CTX = ['x = %s\n']
+
+
+def first_string(text):
+    for t in reflang.lex(text)[0]:
+        if t.kind == 'str':
+            return t
+    return None
+
+
+def spell_src(tup, ki, ctx=0):
+    q, f = SPELL_KINDS[ki]
+    return SPELL_CTX[ctx] % (f + q + ''.join(SPELL_ATOMS[i][0] for i in tup) + q)
+
+
+def spell_cases(maxlen):
+    """(atom index tuple, quoting form index), simplest first, one per distinct source text."""
+    seen = set()
+    out = []
+    for k in range(0, maxlen + 1):
+        for tup in itertools.product(range(len(SPELL_ATOMS)), repeat=k):
+            for ki in range(len(SPELL_KINDS)):
+                src = spell_src(tup, ki)
+                if src not in seen:
+                    seen.add(src)
+                    out.append((tup, ki))
+    return out
+
+
+def w_spell(item):
+    """item: (list of (atom-index tuple, quoting form index), configurations).  -> (summary, counters)"""
+    cases, cfgs = item
+    cnt = {}
+
+    def bump(*key):
+        k = ' '.join(key)
+        cnt[k] = cnt.get(k, 0) + 1
+
+    def gen():
+        for tup, ki in cases:
+            atoms = [SPELL_ATOMS[i] for i in tup]
+            body = ''.join(a[0] for a in atoms)
+            src = spell_src(tup, ki)
+            for cfg in cfgs:
+                st, v, cls, out = judge_out(src, cfg)
+                yield src, cfg, st, v, cls
+                if st != 'ok':
+                    continue
+                # coverage bookkeeping, from the reference reading of input and output
+                tin = first_string(src)
+                tout = first_string(out)
+                is_f, is_m, raw = tin.extra
+                of, om, _ = tout.extra
+                kind = ('f' if is_f else '') + ("'''" if is_m else "'")
+                okind = ('f' if of else '') + ("'''" if om else "'")
+                if raw != body or (SPELL_KINDS[ki][1] + SPELL_KINDS[ki][0]) != kind:
+                    bump('text reads as another literal than the one spelled out')      # e.g. ' + '\n' + ' is '''\n'''
+                    continue
+                for a in set(atoms):
+                    if a[1]:
+                        bump('cell', kind, a[1] + ':' + a[2])
+                if okind != kind:
+                    bump('rewritten', kind, '->', okind)
+                if cfg.get('simplify_string_literals', True):
+                    if is_f and PLACEHOLDER.search(tin.val):
+                        for sp in {a[2] for a in atoms if a[1] == 'at'}:
+                            bump('f kept: placeholder with @ spelled', kind, sp)
+                        if '@' not in raw:
+                            bump('f kept: placeholder only in the decoded value', kind)
+                    elif is_f and '@' in tin.val:
+                        bump('f without placeholder but with @ in the value', kind, '->', okind)
+                    if is_m and not om:
+                        bump('triple->single', kind)
+                    if is_m and om:
+                        for c, cname, _, _ in SIGNIFICANT[1:]:
+                            if c in tin.val:
+                                bump('triple kept: value holds', cname)
+    s = summarise(gen())
+    return s, cnt
+
+
+# ---- comment text: every character a comment may hold ------------------------------------------------------------------
+# "A comment starts with the # character and extends until the end of the line" (Syntax.md): its text is arbitrary.  The
+# alphabet is every character below U+0100 and every Unicode space / line / paragraph separator above it (plus BOM, ZWSP
+# and one astral character), except LF (ends the comment) and CR (part of a line ending: whether a lone CR ends a line
+# is not stated; the CLI reads files with universal newlines).  Each character stands after the #, or in the middle of
+# the text (a trailing one is trailing whitespace for several of them, which the oracle ignores), in every comment place.
+COMMENT_CHARS = [chr(i) for i in range(0x100) if chr(i) not in '\n\r'] + \
+                [chr(i) for i in (0x1680, *range(0x2000, 0x200c), 0x2028, 0x2029, 0x202f, 0x205f, 0x3000, 0xfeff, 0x1f600)]
+COMMENT_CTX = ['x = 1 %s\n', '%s\nx = 1\n', 'x = [\n  1,  %s\n  2,\n]\n', 'x = f(a,  %s\n  b)\n', 'x = a \\ %s\n  + 1\n',
+               'if a  %s\n  %s\n  x = 1\nendif\n']
+LINE_BOUNDARY_CHARS = '\x0b\x0c\x1c\x1d\x1e\x85\u2028\u2029'       # (what str.splitlines() splits at, besides LF and CR)
+
+
+_NO_LB = {ord(c): None for c in LINE_BOUNDARY_CHARS + ' \t'}     # (the blanks around such a character go with it)
+
+
+def gen_comment_texts():
+    for ch in COMMENT_CHARS:
+        for cm in ('#%sfoo' % ch, '# foo%sbar' % ch, '# %s%s x' % (ch, ch)):
+            for ctx in COMMENT_CTX:
+                yield ctx.replace('%s', cm)
 
 
 def sized_atoms(n, width, kind):
@@ -1523,6 +1711,62 @@ def main():
         kinds = {k for c in D['strings']['classes'] if len(c) == 4 for k in c[3]}
         need({'ml', 'f'} <= kinds, 'no string literal was simplified in the strings family (%r)' % kinds)
 
+    # ---- spellings: significant characters in every spelling, every quoting form --------------------------------
+    if ck.want('spellings'):
+        SPELL_ATOMS[:] = spell_atoms(('0', ' ') if T else ())
+        maxlen = 3
+        cases = spell_cases(maxlen)
+        cfgs = [{}, {'simplify_string_literals': False}] if T else [{}]
+        total = empty_summary()
+        cnt = {}
+        for s, c in pmap(w_spell, [(cases[i:i + 400], cfgs) for i in range(0, len(cases), 400)]):
+            merge(total, s)
+            for k, v in c.items():
+                cnt[k] = cnt.get(k, 0) + v
+        report(ck, 'spellings', total)
+        D['spellings'] = total
+        kinds = [f + q for q, f in SPELL_KINDS]
+        cells = {(kd, cn + ':' + sp): cnt.get('cell %s %s:%s' % (kd, cn, sp), 0)
+                 for kd in kinds for _, cn, _, _ in SIGNIFICANT for sp in SPELLINGS}
+        # cells that cannot exist: a raw newline inside '..' / f'..' is deprecated (announced error) -> unspecified; a raw
+        # quote inside '..' / f'..' ends the literal unless a backslash precedes it, and then it is the cell quote:simple
+        unjudgeable = sorted(k for k in cells if k[0] in ("'", "f'") and k[1] in ('newline:lit', 'quote:lit'))
+        empty = sorted(k for k, v in cells.items() if v == 0 and k not in unjudgeable)
+        ck.part('spellings', atoms=len(SPELL_ATOMS), max_atoms_per_body=maxlen, bodies=sum(len(SPELL_ATOMS) ** k for k in range(maxlen + 1)), quoting_forms=len(kinds), distinct_texts=len(cases),
+                configurations=len(cfgs), cells_kind_x_character_x_spelling=len(cells),
+                cells_with_a_judged_case=sum(1 for k, v in cells.items() if v and k not in unjudgeable), least_judged_cell=min(v for k, v in cells.items() if k not in unjudgeable),
+                impossible_cells=[' '.join(k) for k in unjudgeable],
+                counters={k: v for k, v in sorted(cnt.items()) if not k.startswith('cell ')})
+        need(not empty, 'spellings: (quoting form, character, spelling) cells without any judged case: %r' % empty)
+        for sp in SPELLINGS:
+            if sp != 'simple':      # (\@ is not an escape: the backslash stays, it spells \ followed by @)
+                need(cnt.get("f kept: placeholder with @ spelled f' " + sp, 0) > 0,
+                     'spellings: no f-string with a placeholder whose @ is spelled %s was judged' % sp)
+        need(cnt.get("f kept: placeholder only in the decoded value f'", 0) > 0,
+             'spellings: no f-string whose placeholder exists only in the decoded value')
+        need(cnt.get("rewritten f' -> '", 0) > 0 and cnt.get("rewritten ''' -> '", 0) > 0 and cnt.get("rewritten f''' -> '", 0) > 0,
+             'spellings: a documented simplification never happened')
+        need(all(cnt.get('triple kept: value holds ' + cn, 0) > 0 for _, cn, _, _ in SIGNIFICANT[1:]),
+             'spellings: a reason to keep a triple-quoted string was never seen')
+
+    # ---- a literal of the spellings alphabet as the only element of a container (the comma / layout rules meet the rewrite)
+    if ck.want('spellings:contexts'):
+        SPELL_ATOMS[:] = spell_atoms(('0', ' ') if T else ())
+        ctxs = ['x = f(%s)\n', 'f(%s)\n', 'x = a.m(%s)\n', 'x = f(k: %s)\n', 'x = [%s]\n', 'x = {%s: 1}\n', 'x = f(%s,)\n', 'x = (%s)\n']
+        lits = [spell_src(tup, ki).split(' = ', 1)[1].rstrip('\n') for tup, ki in spell_cases(ck.q(1, 2))]
+        fam_sources('spellings:contexts', [c % l for l in lits for c in ctxs],
+                    [{}, {'no_single_comma_function': True}, {'kwargs_force_multiline': True, 'space_array': True},
+                     {'no_single_comma_function': True, 'simplify_string_literals': False}], chunk=100)
+        if 'spellings:contexts' in D:
+            kinds = {k for c in D['spellings:contexts']['classes'] if len(c) == 4 for k in c[3]}
+            need({'ml', 'f'} <= kinds, 'no string literal was simplified in the spellings:contexts family (%r)' % kinds)
+
+    # ---- comment text ------------------------------------------------------------------------------------------
+    fam_sources('comment-text', gen_comment_texts(), [{}, {'indent_before_comments': '', 'max_line_length': 20}], chunk=100)
+    if 'comment-text' in D:
+        ck.part('comment-text', characters=len(COMMENT_CHARS), comment_places=len(COMMENT_CTX), positions_in_comment=3)
+        need(D['comment-text']['ok'] > len(COMMENT_CHARS), 'comment-text: hardly any case judged')
+
     # ---- (2) long argument lists -----------------------------------------------------------------------------
     if ck.want('longargs'):
         total = empty_summary()
@@ -1687,6 +1931,8 @@ def main():
             if name.startswith('trivia:'):
                 need(tr['skip'].get('ref_rejects', 0) == 0,
                            'the legal-trivia generator produced text the reference parser rejects (%s: %r)' % (name, tr['skip']))
+    if os.environ.get('C16_DEBUG'):
+        print(json.dumps(ck.parts, indent=1, sort_keys=True, default=repr), flush=True)
     if unmet:
         if ck.n_viol == 0:
             ck.require(False, '; '.join(unmet))
